@@ -82,7 +82,7 @@ def make_replay(prop, g, r, o, meta, search=True):
         'native_replay': None,
     }
     found = False
-    cex = g.get('cex') or meta.get('cex')
+    cex = g['cex'] if 'cex' in g else meta.get('cex')
     if cex and not search:
         rep['native_replay'] = {'skipped': 'the bounded input search was run once for this group, on the first refuted obligation (see its replay file)'}
     elif cex:
